@@ -175,35 +175,157 @@ def simple_assignments(root):
             yield st.target, st.value
 
 
-def unsupplied_defaults(prog, fi):
+_UD_CACHE = {}
+
+
+def unsupplied_defaults(prog, fi, private_only=True):
     """{('sym', param): ('const', default)} for the defaulted parameters of a PRIVATE method that no call site of the
     package ever supplies (a helper generalised with `units=None`, `steps=10` behaves as before for its callers)"""
-    if not fi.name.startswith("_") or fi.name.startswith("__") or fi.cls is None:
-        return {}
+    key = (id(prog), fi.qual, private_only)
+    if key not in _UD_CACHE:
+        _UD_CACHE[key] = _unsupplied_defaults(prog, fi, private_only)
+    return _UD_CACHE[key]
+
+
+def _unsupplied_defaults(prog, fi, private_only):
+    env = {}
+    for name, d in unsupplied_default_nodes(prog, fi, private_only).items():
+        if isinstance(d, ast.Constant):
+            env[("sym", name)] = ("const", d.value)
+        elif isinstance(d, ast.Call) and dotted(d.func) == "float" and len(d.args) == 1 and isinstance(d.args[0], ast.Constant) and not d.keywords:
+            env[("sym", name)] = ("call", ("glob", "ext:builtins.float"), (("const", d.args[0].value),), (), 0)
+    va = fi.node.args.vararg
+    if va is not None and vararg_unsupplied(prog, fi, private_only):
+        env[("sym", va.arg)] = ("tuple", ())
+    return env
+
+
+def _positional(fi):
     a = fi.node.args
     pos = [x.arg for x in a.posonlyargs + a.args]
-    if pos and not fi.is_static:
+    if pos and fi.cls is not None and not fi.is_static:
         pos = pos[1:]
+    return pos
+
+
+_SUPPLY_CACHE = {}
+
+
+def _supply(prog, fi, _depth=0):
+    """(names of parameters some call site / hand-over in the package supplies, may extra positionals reach *args,
+    is anything unknown).  A hand-over `f(g, a, k=v)` is read as: the arguments after g may be passed on to g."""
+    key = (id(prog), fi.qual)
+    if key in _SUPPLY_CACHE:
+        return _SUPPLY_CACHE[key]
+    _SUPPLY_CACHE[key] = (set(), True, True)  # recursion guard: assume the worst
+    pos = _positional(fi)
+    supplied, extra, unknown = set(), False, False
+
+    def is_ref(m, n):
+        if fi.cls is not None:
+            return isinstance(n, ast.Attribute) and n.attr == fi.name
+        return isinstance(n, (ast.Name, ast.Attribute)) and isinstance(getattr(n, "ctx", None), ast.Load) and prog.resolve(m, n) == fi.qual
+
+    def empty_star(m, x, owner):
+        """*args where args is the enclosing function's own vararg and nothing ever reaches that vararg"""
+        if not (isinstance(x, ast.Starred) and isinstance(x.value, ast.Name)) or owner is None or _depth > 3:
+            return False
+        va = owner.node.args.vararg
+        if va is None or va.arg != x.value.id:
+            return False
+        if any(isinstance(n, ast.Name) and n.id == va.arg and isinstance(n.ctx, (ast.Store, ast.Del)) for n in ast.walk(owner.node)):
+            return False
+        _s, ex, unk = _supply(prog, owner, _depth + 1)
+        return not ex and not unk
+
+    def positional(m, args, owner, offset=0):
+        nonlocal extra
+        i = offset
+        for x in args:
+            if isinstance(x, ast.Starred):
+                if empty_star(m, x, owner):
+                    continue
+                supplied.update(pos[i:])
+                extra = True
+                return
+            if i < len(pos):
+                supplied.add(pos[i])
+            else:
+                extra = True
+            i += 1
+
+    for m in prog.modules.values():
+        owners = {}
+        for f in prog.functions.values():
+            if f.module is m:
+                for n in ast.walk(f.node):
+                    owners.setdefault(id(n), f)  # outermost first is fine: varargs of nested defs are rare
+        for n in ast.walk(m.tree):
+            if not isinstance(n, ast.Call):
+                continue
+            owner = owners.get(id(n))
+            if is_ref(m, n.func):
+                positional(m, n.args, owner)
+                for k in n.keywords:
+                    if k.arg is None:
+                        unknown = True
+                    else:
+                        supplied.add(k.arg)
+                continue
+            is_thread = (prog.resolve(m, n.func) or "") == "ext:threading.Thread"
+            for j, x in enumerate(n.args):
+                if is_ref(m, x):
+                    positional(m, n.args[j + 1 :], owner)
+                    for k in n.keywords:
+                        if k.arg is None:
+                            unknown = True
+                        else:
+                            supplied.add(k.arg)
+            for k in n.keywords:
+                if not is_ref(m, k.value):
+                    continue
+                if is_thread and k.arg == "target":
+                    # Thread(target=g, args=(a, b), kwargs={...}): the displays say what reaches g
+                    for k2 in n.keywords:
+                        v = k2.value
+                        if k2.arg == "args":
+                            if isinstance(v, ast.Call) and dotted(v.func) in ("tuple", "list") and len(v.args) == 1:
+                                v = v.args[0]
+                            if isinstance(v, (ast.Tuple, ast.List)):
+                                positional(m, v.elts, owner)
+                            else:
+                                unknown = True
+                        elif k2.arg == "kwargs":
+                            if isinstance(v, ast.Dict) and all(isinstance(kk, ast.Constant) for kk in v.keys):
+                                supplied.update(kk.value for kk in v.keys)
+                            else:
+                                unknown = True
+                else:
+                    unknown = True
+    _SUPPLY_CACHE[key] = (supplied, extra, unknown)
+    return _SUPPLY_CACHE[key]
+
+
+def vararg_unsupplied(prog, fi, private_only=True):
+    """no call site / hand-over in the package passes more positional arguments than fi names: its *args is ()"""
+    if fi.name.startswith("__") or (private_only and not fi.name.startswith("_")) or (fi.cls is None and fi.parent is not None):
+        return False
+    _s, extra, unknown = _supply(prog, fi)
+    return not extra and not unknown
+
+
+def unsupplied_default_nodes(prog, fi, private_only=True):
+    """{param: default expression} for the defaulted parameters of a private method / private module-level function
+    that no call site and no hand-over (`adopt(fn, a, k=v)`: the arguments after fn may reach it) in the package supplies"""
+    if fi.name.startswith("__") or (private_only and not fi.name.startswith("_")) or (fi.cls is None and fi.parent is not None):
+        return {}
+    a = fi.node.args
+    pos = _positional(fi)
     defaults = dict(zip(pos[len(pos) - len(a.defaults):], a.defaults)) if a.defaults else {}
     defaults.update({x.arg: d for x, d in zip(a.kwonlyargs, a.kw_defaults) if d is not None})
     if not defaults:
         return {}
-    supplied = set()
-    for m in prog.modules.values():
-        for n in ast.walk(m.tree):
-            if isinstance(n, ast.Attribute) and n.attr == fi.name:
-                pass
-            if isinstance(n, ast.Call) and isinstance(n.func, ast.Attribute) and n.func.attr == fi.name:
-                for i, _x in enumerate(n.args):
-                    if i < len(pos):
-                        supplied.add(pos[i])
-                for k in n.keywords:
-                    supplied.add(k.arg)  # None for **kwargs: then nothing can be assumed
-    if None in supplied:
+    supplied, _extra, unknown = _supply(prog, fi)
+    if unknown:
         return {}
-    # the method must not escape as a value (e.g. handed to adopt with arguments) other than through a plain reference
-    env = {}
-    for name, d in defaults.items():
-        if name not in supplied and isinstance(d, ast.Constant):
-            env[("sym", name)] = ("const", d.value)
-    return env
+    return {name: d for name, d in defaults.items() if name not in supplied}
